@@ -104,6 +104,39 @@ pub fn c08(o: &Opts) -> Outcome {
             if let Some(w) = c08_batch(&same, 5, 2, 8, false, threads, 1e-7) { return Outcome { cases, witness: Some(w) }; }
         }
     }
+    // extreme multiplicity with bins fine enough to resolve it (one k-mer about 70000 times)
+    {
+        let recs = vec![vec![b'A'; 70_000], b"ACGTACGTAC".to_vec()];
+        cases += 1;
+        if let Some(mut w) = c08_batch(&recs, 3, 1000, 100, false, 2, 6.0) {
+            for kv in w.iter_mut() { if kv.0 == "records" { kv.1 = "<70000 x A>|ACGTACGTAC".into(); } }
+            return Outcome { cases, witness: Some(w) };
+        }
+    }
+    // one computer object used twice with a different counting input in between: the second result uses the second table
+    {
+        let sc = Scratch::new("cov2");
+        let inp = sc.path("in.fa"); let alt = sc.path("alt.fa"); let outd = sc.path("out"); let fresh = sc.path("fresh");
+        std::fs::create_dir_all(&outd).unwrap(); std::fs::create_dir_all(&fresh).unwrap();
+        let recs = vec![b"ACGTACGTACGTACGTACGTTTTTTTTT".to_vec()];
+        write_fasta(&inp, &recs);
+        write_fasta(&alt, &(0..9).map(|_| b"ACGTACGTACGTACGTACGT".to_vec()).collect::<Vec<_>>());
+        let (i1, o1, a1) = (inp.clone(), outd.clone(), alt.clone());
+        let (i2, o2, a2) = (inp.clone(), fresh.clone(), alt.clone());
+        let r = guarded(move || {
+            let mut c = coverage::CovComputer::new(i1, o1, 7, 4, 8); c.set_norm(false); c.set_threads(1);
+            c.build_table().unwrap(); c.compute_coverages();
+            c.set_kmer_path(a1); c.build_table().unwrap(); c.compute_coverages();
+            let mut f = coverage::CovComputer::new(i2, o2, 7, 4, 8); f.set_norm(false); f.set_threads(1); f.set_kmer_path(a2);
+            f.build_table().unwrap(); f.compute_coverages();
+        });
+        cases += 1;
+        let x = std::fs::read(format!("{}/kmers.vectors", outd)).unwrap_or_default();
+        let y = std::fs::read(format!("{}/kmers.vectors", fresh)).unwrap_or_default();
+        if r.is_err() || x != y || x.is_empty() {
+            return Outcome { cases, witness: Some(vec![("records".into(), show(&recs[0])), ("k".into(), "7".into()), ("why".into(), "one CovComputer used twice (build, compute, set_kmer_path, build, compute) differs from a fresh computer with the second counting input".into())]) };
+        }
+    }
     // a separate counting input that lacks some of the records' k-mers: absent k-mers fall in bin 0 and still count as windows
     {
         let recs = vec![b"ACGTACGTACGGTTTTTTTTTT".to_vec(), b"GGGGGGGGGGGGACGTACG".to_vec()];
